@@ -67,6 +67,25 @@ theorem no_leftover_reply (sz : Sizes) (h : Handler) (r : Residue) (prev : List 
   · simp only [hl, if_false]
     cases p <;> simp [specReply_silent sz h q _ _ hl hs]
 
+/-- **A Msg-path reply is the packed message, wherever the packer put it.** The
+library's `PackBuffer` chooses between the slab's TX buffer and a buffer of its
+own by the UNCOMPRESSED length `ulen`; whichever it is — for every `ulen` — a
+worker-served request whose handler answers through `WriteMsg` sends exactly
+the packed bytes `b` (never what the recycled slab held), to its own source. -/
+theorem msg_path_reply_is_packed_bytes (sz : Sizes) (h : Handler) (r : Residue) (q : Req) (batch : Bool)
+    (b : Bytes) (ulen : Nat) (hv : acceptHeader q.pkt = some .ok) (hh : ∀ e, h q.pkt e = .writeMsgU b ulen)
+    (hb : 0 < b.length ∧ b.length ≤ sz.udpBuf) (hq : q.pkt.length ≤ sz.udpBuf) :
+    (lifeCycle sz h (recycled r) q (.ring batch)).2 = [{ dest := q.src, ctl := q.ctl, body := b }] := by
+  rw [(lifeCycle_spec sz h _ q _ (recycled_scrubbed r)).1]
+  have hne : h q.pkt .raw ≠ .decline := by rw [hh]; simp
+  have hl : ¬ q.pkt.length > sz.udpBuf := by omega
+  have hfit : fits sz false b = some b := by
+    unfold fits
+    have h1 : ¬ b.length > sz.udpBuf := by omega
+    have h2 : ¬ b.length = 0 := by omega
+    simp [h1, h2]
+  simp [specOut, hl, specReply_ok_ne sz h q.pkt .raw false hv hne, hh, Act.wrote, hfit]
+
 /-- … and the slab it leaves behind is scrubbed again: the lengths and flags
 a later request's send depends on are all clear. -/
 theorem release_scrubs (sz : Sizes) (h : Handler) (r : Residue) (l : List (Req × Path)) :
@@ -430,6 +449,11 @@ example : (runMany {} program (recycled dirty)
     [({ pkt := qWrite, src := 1 }, .ring false), ({ pkt := qResp, src := 2 }, .ring true),
      ({ pkt := qPanic, src := 3 }, .inline)]).2 =
     [{ dest := 1, ctl := [], body := [0xab, 0xcd, 0x81, 0, 0x41, 0x41] }] := by decide
+
+-- a compressible reply (3 records: 210 bytes uncompressed > the 150-byte class, 110 packed) on a dirty slab
+example : ((lifeCycle { udpBuf := 150 } program (recycled dirty)
+    { pkt := [0x55, 0x66, 0, 0, 0, 1, 0, 0, 0, 0, 0, 0, 9, 3, 3], src := 4 } (.ring true)).2.map (fun d => (d.dest, d.body.length))) =
+    [(4, 110)] := by decide
 
 example : Silent {} program { pkt := qResp, src := 2 } := by
   right; right; left; decide
